@@ -5,7 +5,7 @@ from ..engines import index_rules, ranges, witness
 from ..engines.validators import closure_return, subst
 from ..facts import CheckError
 from ..progs import programs
-from ..sym import Sym, atoms, fmt
+from ..sym import Sym, atoms, fmt, short
 from . import c03
 
 SPLITS = {"split_by_height": "height", "split_by_width": "width",
@@ -719,6 +719,121 @@ def _is_index_times_size(e):
     return isinstance(num, tuple) and bool(num) and num[0] == "bin" and num[1] == "Mul"
 
 
+def _taint(prog, f, seeds, field_seeds=()):
+    """locals of f that may carry a value computed from `seeds` (locals) or from the captured
+    fields `field_seeds` of a closure environment (flow-insensitive, through calls)"""
+    t = set(seeds)
+    fs = set(field_seeds)
+
+    def pl_t(pl):
+        if not pl:
+            return False
+        if pl[0] in t:
+            return True
+        if pl[0] == 1 and fs:
+            for el in pl[1:]:
+                if isinstance(el, list) and el[0] == "f":
+                    return el[1] in fs
+        return False
+
+    def op_t(op):
+        return isinstance(op, list) and op and op[0] in ("c", "m") and pl_t(op[1])
+
+    def rv_t(rv):
+        k = rv[0]
+        if k == "use":
+            return op_t(rv[1])
+        if k in ("ref", "addr", "rawptr", "len", "discr"):
+            return pl_t(rv[2] if k == "ref" else rv[1]) if len(rv) > 1 and isinstance(rv[-1], list) else False
+        if k in ("bin", "cbin", "ovf"):
+            return any(op_t(o) for o in rv[2:] if isinstance(o, list))
+        if k in ("cast", "un"):
+            return any(op_t(o) for o in rv[1:] if isinstance(o, list))
+        if k == "agg":
+            return any(op_t(o) for o in (rv[4] or []))
+        return any(op_t(o) for o in rv[1:] if isinstance(o, list))
+    changed = True
+    while changed:
+        changed = False
+        for blk in f.blocks:
+            if blk["c"]:
+                continue
+            for st in blk["s"]:
+                if st[0] == "a" and st[1][0] not in t:
+                    try:
+                        hit = rv_t(st[2])
+                    except Exception:
+                        hit = False
+                    if hit:
+                        t.add(st[1][0])
+                        changed = True
+            tm = blk["t"]
+            if tm[0] == "call" and tm[3] and tm[3][0] not in t and any(op_t(a) for a in tm[2]):
+                t.add(tm[3][0])
+                changed = True
+    return t, op_t
+
+
+SINK = re.compile(r"(::new|::from_ref|::from_pixels|::from_buffer|::crop|::crop_unchecked)$")
+SLICE_SINKS = ("split_at", "split_at_mut", "get_unchecked", "get_unchecked_mut", "index", "index_mut",
+               "get", "get_mut", "chunks", "chunks_mut", "chunks_exact", "chunks_exact_mut", "skip",
+               "iter_rows", "iter_rows_mut", "add", "offset")
+
+
+def start_used(rep, prog, rule):
+    rep.rule(rule, "in every split implementation the start row / start column of the requested band "
+             "reaches the POSITION of the parts: an argument of the inner view's split, of a part "
+             "constructor, or of the slice arithmetic that cuts the parts (a flow-insensitive taint "
+             "from the parameter, through locals, calls and closure captures). A start that is only "
+             "compared in the guard and then forgotten puts the parts at the top / left edge of the "
+             "view: with a band that starts elsewhere (the rayon passes split the source at the crop "
+             "offset) every part shows other pixels than requested")
+    impls = split_impls(prog)
+    rep.floor(rule, "split implementations", len(impls), 17)
+    for f, m, who in impls:
+        rep.touch(f)
+        sym = Sym(f)
+        key = f.name
+        if is_delegation(f, m, sym):
+            rep.ok(rule, key, f.loc, "delegates to inner.%s with the same arguments" % m)
+            continue
+        if f.arg_count < 4:
+            rep.unk(rule, key, f.loc, "unexpected signature")
+            continue
+        start = 2
+        hits = []
+
+        def scan(g, tset, op_t, depth=0):
+            for c in g.calls():
+                nm = c.name or ""
+                meth = c.method or nm.rsplit("::", 1)[-1]
+                sink = meth.startswith("split_by_") or SINK.search(nm) or (meth in SLICE_SINKS)
+                if sink and any(op_t(a) for a in c.args):
+                    hits.append(c)
+            if depth >= 2:
+                return
+            for b, blk in enumerate(g.blocks):
+                if blk["c"]:
+                    continue
+                for st in blk["s"]:
+                    if st[0] == "a" and st[2][0] == "agg" and st[2][1] == "closure":
+                        h = prog.fns.get(st[2][2])
+                        if h is None:
+                            continue
+                        fseeds = {i for i, o in enumerate(st[2][4] or []) if op_t(o)}
+                        t2, op2 = _taint(prog, h, set(), fseeds)
+                        scan(h, t2, op2, depth + 1)
+        tset, op_t = _taint(prog, f, {start})
+        scan(f, tset, op_t)
+        if hits:
+            rep.ok(rule, key, f.loc, "the start reaches %s" % ", ".join(sorted({short(c.name) for c in hits}))[:100])
+        else:
+            rep.bad(rule, key + "|start-dropped", f.loc,
+                    "%s: the start of the requested band (`%s`) reaches no part constructor, inner split "
+                    "or slice position -- it is only tested in the guard: the parts are cut from the "
+                    "edge of the view instead of from the requested start" % (f.name, f.local_name(start)))
+
+
 def run(rep, tier):
     cfgs = ["x86"] if tier == "quick" else ["x86", "x86-rayon", "arm", "wasm"]
     for cfg, prog in programs(cfgs):
@@ -727,6 +842,7 @@ def run(rep, tier):
         rep.call(count, rep, prog, "C14.count")
         rep.call(offsets, rep, prog, "C14.offsets")
         rep.call(aliasing, rep, prog, "C14.aliasing")
+        rep.call(start_used, rep, prog, "C14.start-used")
         rep.call(positions, rep, prog, "C14.positions")
         rep.call(band_start, rep, prog, "C14.band-start")
         rep.call(sizes, rep, prog, "C14.sizes")
